@@ -94,6 +94,9 @@ func (o Op) Token() string {
 		if pre == "badfs" {
 			pre = "none" // for the registry model a precompiled instantiation like any other
 		}
+		if pre == "hostb" {
+			pre = "host" // for the registry model a host module like any other
+		}
 		return fmt.Sprintf("inst,%d,%d,%s", o.H, o.Name, pre)
 	case "look":
 		return fmt.Sprintf("look,%d", o.Name)
@@ -148,7 +151,8 @@ type world struct {
 	notes    map[int][]uint32
 	allocs   map[int]int
 	frees    map[int]int
-	pool     []int // handles of successfully instantiated modules, in response order
+	pool     []int                            // handles of successfully instantiated modules, in response order
+	builders map[int]wazero.HostModuleBuilder // per name: the builder object reused by every "hostb" instantiation
 	// one close-notifier registration shared by all `Shared` instantiations
 	sharedCtx   context.Context
 	sharedNotes []uint32
@@ -372,6 +376,21 @@ func (w *world) do(o Op) (res rawRes) {
 		case "host":
 			m, err = w.rt.NewHostModuleBuilder(nameStr(o.Name)).NewFunctionBuilder().
 				WithFunc(func(context.Context, uint32) uint32 { return 0 }).Export("f").Instantiate(ictx)
+		case "hostb":
+			// the SAME HostModuleBuilder object for every instantiation under this name (sequential histories only):
+			// a builder may be used again after the instance made from it was closed or its instantiation failed
+			w.mu.Lock()
+			if w.builders == nil {
+				w.builders = map[int]wazero.HostModuleBuilder{}
+			}
+			bl := w.builders[o.Name]
+			if bl == nil {
+				bl = w.rt.NewHostModuleBuilder(nameStr(o.Name)).NewFunctionBuilder().
+					WithFunc(func(context.Context, uint32) uint32 { return 0 }).Export("f")
+				w.builders[o.Name] = bl
+			}
+			w.mu.Unlock()
+			m, err = bl.Instantiate(ictx)
 		default:
 			hx.Fatal("bad pre %q", o.Pre)
 		}
@@ -572,7 +591,9 @@ func genSeq(r *rand.Rand, n int) []Op {
 		switch {
 		case x < 32:
 			pre := "none"
-			if y := r.Intn(10); y >= 8 {
+			if y := r.Intn(10); y == 9 {
+				pre = "hostb"
+			} else if y == 8 {
 				pre = "host"
 			} else if y >= 6 {
 				pre = "bin"
@@ -580,7 +601,7 @@ func genSeq(r *rand.Rand, n int) []Op {
 				pre = "badfs"
 			}
 			name := r.Intn(4)
-			if pre == "host" && name == 0 {
+			if (pre == "host" || pre == "hostb") && name == 0 {
 				name = 1 + r.Intn(3) // API rule: a host module name must not be empty
 			}
 			ops = append(ops, Op{Kind: "inst", H: nextH, Name: name, Pre: pre, Shared: r.Intn(3) == 0})
@@ -739,7 +760,7 @@ func runSeq(engine string, ops []Op, cfg Cfg, o *hx.Oracle) {
 		if regAlive && real != regR {
 			regAlive = false
 			sig := fmt.Sprintf("C10:seq-differs-from-spec:%s:%s-vs-%s", op.Kind, strings.Split(real, ",")[0], strings.Split(regR, ",")[0])
-			if !cfg.FixF9 && (op.Kind == "hcomp" || op.Kind == "comp" || (op.Kind == "inst" && op.Pre == "host")) && regR == "closed" {
+			if !cfg.FixF9 && (op.Kind == "hcomp" || op.Kind == "comp" || (op.Kind == "inst" && (op.Pre == "host" || op.Pre == "hostb"))) && regR == "closed" {
 				sig = sigF9
 			} else if !cfg.FixF8 && (op.Kind == "look" || op.Kind == "inst") {
 				sig = sigF8
